@@ -138,9 +138,10 @@ Definition ex_run (fixed : bool) (stream : list Q) (nb nc : Z) (st : dstate Q) (
       false fixed ex_pdf ex_inside (ex_stream stream) (fun w => (1%Q, w)) (fun w x => (x, w)) nb nc st w.
 Definition ex_st0 : dstate Q := mkds [[1%Q]; [2%Q]; [3%Q]] [] false [] [] 0.
 
-(* The code as found (line 449 assigns jindex): with the admissible draw r = 1 for k, the third index
-   handed to getIJKdelta is num_chains -- out of range.  The hypotheses of c15_indices_in_range hold
-   (all draws are in [0,1], trunc = floor), only [fixed] differs. *)
+(* The code as found (line 449 assigns jindex): with the admissible draw r = 1 for k (3 chains, draws 1/2
+   then 1 for chain 0), getIJKdelta(0, 2, 3, ..) is called: jindex was overwritten by num_chains - 1 = 2 and
+   kindex = num_chains = 3 is out of range.  The hypotheses of c15_indices_in_range hold (all draws are
+   in [0,1], trunc = floor), only [fixed] differs. *)
 Theorem c15_indices_unfixed_refuted :
   (forall w, 0 <= fst (ex_stream [(1 # 2); 1] w) /\ fst (ex_stream [(1 # 2); 1] w) <= 1)%Q /\
   In (EvGet 0 1 3 2 3) (snd (ex_run false [(1 # 2); 1]%Q 0 1 ex_st0 0)) /\
